@@ -260,6 +260,27 @@ Proof.
     apply Forall_forall. intros s Hs. apply in_map_iff in Hs as (rf' & <- & _). apply fix_rule_peer_ok.
 Qed.
 
+(* ---------- CheckerController.CheckRegion ---------- *)
+Lemma then_Forall (P : res -> Prop) a b : Forall P a -> Forall P b -> Forall P (then_ a b).
+Proof.
+  intros Ha Hb. unfold then_. apply Forall_flat_map. eapply Forall_impl; [|exact Ha].
+  intros [x|] Hx; [constructor; [exact Hx|constructor]|exact Hb].
+Qed.
+
+Definition any_res_ok (inp : input) (x : res) : Prop := replica_res_ok inp x \/ rule_res_ok inp x.
+
+Theorem controller_check_ok inp : Forall (any_res_ok inp) (controller_check inp).
+Proof.
+  unfold controller_check. apply then_Forall.
+  - unfold joint_stage. destruct (_ && _); (constructor; [left; exact I|constructor]).
+  - destruct (rules_enabled (i_cfg inp)).
+    + eapply Forall_impl; [|apply rule_check_ok]. intros x Hx; right; exact Hx.
+    + apply then_Forall.
+      * unfold learner_stage. destruct (filter _ _); [constructor; [left; exact I|constructor]|].
+        destruct (region_ok inp); (constructor; [left; exact I|constructor]).
+      * eapply Forall_impl; [|apply replica_check_ok]. intros x Hx; left; exact Hx.
+Qed.
+
 (* ---------- the statement-level corollaries ---------- *)
 (* every store an admissible operator adds a peer on is a good target *)
 Theorem checker_targets_good inp st t :
@@ -272,7 +293,9 @@ Proof.
     - pose proof (replica_check_ok inp) as F. rewrite Forall_forall in F.
       destruct H as [(lrn & H)|(old & lrn & H)]; specialize (F _ H); cbn in F; tauto.
     - pose proof (rule_check_ok inp) as F. rewrite Forall_forall in F.
-      destruct H as [(lrn & H)|(old & lrn & H)]; specialize (F _ H); cbn in F; tauto. }
+      destruct H as [(lrn & H)|(old & lrn & H)]; specialize (F _ H); cbn in F; tauto.
+    - pose proof (controller_check_ok inp) as F. rewrite Forall_forall in F.
+      destruct H as [(lrn & H)|(old & lrn & H)]; specialize (F _ H); destruct F as [F|F]; cbn in F; tauto. }
   destruct T as (stg & coloc & extra & s & Hs & <-).
   exists stg, coloc, extra, s. split; [reflexivity|]. apply add_target_good. exact Hs.
 Qed.
@@ -290,6 +313,16 @@ Theorem rule_removes_only_orphans inp st s :
   (exists o rest, fit_orphans (i_fit inp) = o :: rest /\ p_store o = s) /\ forallb rf_satisfied (fit_rules (i_fit inp)) = true.
 Proof.
   intros H. pose proof (rule_check_ok inp) as F. rewrite Forall_forall in F. specialize (F _ H). cbn in F. tauto.
+Qed.
+
+(* through CheckRegion: one of the two justifications *)
+Theorem controller_removes_only_justified inp st s :
+  In (Some (st, ARemove s)) (controller_check inp) ->
+  max_replicas (i_cfg inp) < voter_count (i_region inp)
+  \/ ((exists o rest, fit_orphans (i_fit inp) = o :: rest /\ p_store o = s) /\ forallb rf_satisfied (fit_rules (i_fit inp)) = true).
+Proof.
+  intros H. pose proof (controller_check_ok inp) as F. rewrite Forall_forall in F. specialize (F _ H).
+  destruct F as [F|F]; cbn in F; tauto.
 Qed.
 
 (* the replica checker proposes nothing but add / remove / replace of a region store *)
@@ -350,7 +383,7 @@ Theorem repair_proposed_when_possible inp :
   ~ In None (replica_check inp) /\ replica_check inp <> [].
 Proof.
   intros He Hr Hids. split; [|apply replica_check_nonempty].
-  unfold repair_required in Hr. rewrite He in Hr.
+  unfold repair_required, eff_entry in Hr. rewrite He in Hr.
   apply andb_true_iff in Hr as [Hr Hsel]. apply andb_true_iff in Hr as [Hr Hcnt]. apply andb_true_iff in Hr as [Hen Hok].
   unfold replica_check. rewrite replica_order_ok. cbn [map].
   intros HN.
@@ -402,7 +435,7 @@ Theorem rule_repair_proposed_when_possible inp :
   (forall s, In s (i_stores inp) -> sid s <> 0) ->
   ~ In None (rule_check inp).
 Proof.
-  intros He Hr Hids. unfold repair_required in Hr. rewrite He in Hr.
+  intros He Hr Hids. unfold repair_required, eff_entry in Hr. rewrite He in Hr.
   apply andb_true_iff in Hr as [Hok Hex]. apply existsb_exists in Hex as (rf & Hrf & Hc).
   apply andb_true_iff in Hc as [Hlt Hsel].
   unfold rule_check. destruct (fit_rules (i_fit inp)) as [|rf0 rfs] eqn:E; [contradiction|].
